@@ -640,3 +640,43 @@ def cross_option_cases(rng, distributor=True):
                     n = rng.randint(max(1, sum(k for _, k in prev)), max(1, sum(k for _, k in prev)) + len(cands))
                     out.append((votes, n, dict(opts, form='distributor', max=maxs, prev=prev)))
     return out
+
+
+def deep_only_profile(rng):
+    """a candidate with no first preference, named only at the third rank or lower, while the ballot listed LAST is a bullet vote:
+    a rank scan that stops where the last ballot ends never sees that candidate"""
+    x = rng.randint(0, 2)
+    votes = [[[0, 1, 3], str(6 + x)], [[1, 0, 3], '5'], [[2], '2']]
+    if rng.random() < 0.5:
+        votes.insert(rng.randint(0, 2), [[1, 2, 0, 5], '1'])
+    votes.append([[4], '1'])          # listed last, one rank only
+    return votes
+
+
+def deep_only_after_last(votes):
+    if not votes:
+        return False
+    last = len(votes[-1][0])
+    depth = {}
+    for b, _ in votes:
+        for i, it in enumerate(b):
+            for c in (it if isinstance(it, list) else [it]):
+                depth[c] = min(depth.get(c, 10 ** 9), i)
+    return any(d >= last and d >= 1 for d in depth.values())
+
+
+def hare_shared_coalition_profile(rng):
+    """a coalition expressed THROUGH shared first ranks, sitting exactly on the Droop quota, with pile sizes that leave a
+    remainder when divided among the co-ranked candidates (3, 5 over two; 4, 5, 8 over three); two seats: outsider 8 holds a quota,
+    outsider 9 one vote less, so the coalition must get the second seat.  Returns (votes, coalition)."""
+    g = rng.choice([2, 3])
+    S = list(range(g))
+    sizes = [3, 5] if g == 2 else [4, 5, 8]
+    p1, p2 = rng.choice(sizes), rng.choice(sizes)
+    s_ = rng.randint(0, 2)
+    q = p1 + p2 + s_
+    votes = [[[S], str(p1)], [[S, 9], str(p2)]]
+    if s_:
+        votes.append([list(S), str(s_)])
+    votes += [[[8], str(q)], [[9], str(q - 1)]]
+    return votes, S
